@@ -54,13 +54,15 @@ type Interpreter struct {
 	temporalStore factstore.TemporalFactStore
 	// List of source paths that were loaded, in the order they were loaded.
 	src []string
-	// Maps source path sets to source fragment. A path set is comma-separated list of paths.
-	sourceFragments map[string]*sourceFragment
+	// The source fragments that were pushed, parallel to src: sourceFragments[k]
+	// was made from the path set src[k]. A path set is comma-separated list of paths.
+	// The same path set may be loaded (and popped) more than once.
+	sourceFragments []*sourceFragment
 	// Collects all declarations from source fragments.
 	knownPredicates map[ast.PredicateSym]ast.Decl
 	// For rules added interactively. If this is non-empty,
 	// then src contains an "interactive" path as last element.
-	// and sourceFragments contains an "interactive" entry.
+	// and sourceFragments contains the interactive fragment as last element.
 	buffer string
 	// Predicates for which we display stats.
 	stats []string
@@ -76,7 +78,7 @@ func New(out io.Writer, root string, stats []string) *Interpreter {
 		simpleStore:     factstore.NewSimpleInMemoryStore(),
 		temporalStore:   factstore.NewTemporalStore(),
 		src:             nil,
-		sourceFragments: make(map[string]*sourceFragment),
+		sourceFragments: nil,
 		knownPredicates: map[ast.PredicateSym]ast.Decl{},
 		stats:           stats,
 		postProcessors:  nil,
@@ -419,7 +421,7 @@ func (i *Interpreter) Preload(units []parse.SourceUnit, store factstore.FactStor
 
 func (i *Interpreter) pushSourceFragment(pathset string, units []parse.SourceUnit, programInfo *analysis.ProgramInfo) {
 	i.src = append(i.src, pathset)
-	i.sourceFragments[pathset] = &sourceFragment{units, programInfo, i.simpleStore, i.temporalStore, i.knownPredicates}
+	i.sourceFragments = append(i.sourceFragments, &sourceFragment{units, programInfo, i.simpleStore, i.temporalStore, i.knownPredicates})
 	// The checkpoint map is left untouched; the fragment's declarations go into a copy.
 	knownPredicates := make(map[ast.PredicateSym]ast.Decl, len(i.knownPredicates)+len(programInfo.Decls))
 	for sym, decl := range i.knownPredicates {
@@ -462,10 +464,9 @@ func (i *Interpreter) popSourceFragment() *sourceFragment {
 	if l <= 0 {
 		return nil
 	}
-	path := i.src[l-1]
-	f := i.sourceFragments[path]
+	f := i.sourceFragments[l-1]
 	i.src = i.src[:l-1]
-	delete(i.sourceFragments, path)
+	i.sourceFragments = i.sourceFragments[:l-1]
 	i.knownPredicates = f.knownCheckpoint
 	i.simpleStore = f.simpleCheckpoint
 	i.temporalStore = f.temporalCheckpoint
@@ -486,12 +487,12 @@ func (i *Interpreter) saveInteractiveDefs() func() {
 	if !i.hasInteractiveDefs() {
 		return func() { i.buffer = buffer }
 	}
-	f := i.sourceFragments[interactivePath]
+	f := i.sourceFragments[len(i.sourceFragments)-1]
 	knownPredicates, simpleStore, temporalStore := i.knownPredicates, i.simpleStore, i.temporalStore
 	return func() {
 		i.buffer = buffer
 		i.src = append(i.src, interactivePath)
-		i.sourceFragments[interactivePath] = f
+		i.sourceFragments = append(i.sourceFragments, f)
 		i.knownPredicates = knownPredicates
 		i.simpleStore = simpleStore
 		i.temporalStore = temporalStore
